@@ -49,7 +49,35 @@ def seq_models():
     def as_bytes(eng, st, call):
         return [(st, call.args[0])]
 
-    return [(R(r'Vec::<u8>::new$'), vec_new), (R(r'Vec::<u8>::extend_from_slice$'), extend), (R(r'Vec::<u8>::push$'), push), (R(r'str>::as_bytes$|String::as_bytes$'), as_bytes)]
+    def bytes_of(eng, st, v):
+        """a byte sequence operand of concat: a symbolic sequence (parameter), or a constant byte string / byte array"""
+        from mirsym.values import SeqV, Agg
+        v = M.deref_all(eng, st, v)
+        if isinstance(v, StrV) and isinstance(v.sym, tuple) and v.sym[0] == 'zseq':
+            return v.sym[1]
+        if isinstance(v, StrV) and v.text is not None:
+            bs = v.text.encode('latin-1') if isinstance(v.text, str) else bytes(v.text)
+            return z3.Concat(*[z3.Unit(z3.BitVecVal(b, 8)) for b in bs]) if len(bs) > 1 else (z3.Unit(z3.BitVecVal(bs[0], 8)) if bs else z3.Empty(SEQ))
+        items = v.items if isinstance(v, SeqV) else (v.fields if isinstance(v, Agg) and v.kind in ('array', 'tuple') else None)
+        if items is not None and all(z3.is_bv(x) for x in items):
+            us = [z3.Unit(x if x.size() == 8 else z3.Extract(7, 0, x)) for x in items]
+            return z3.Concat(*us) if len(us) > 1 else (us[0] if us else z3.Empty(SEQ))
+        raise Exception(f'byte sequence expected, got {v!r}')
+
+    def concat(eng, st, call):
+        from mirsym.values import SeqV, Agg
+        arr = M.deref_all(eng, st, call.args[0])
+        items = arr.items if isinstance(arr, SeqV) else (arr.fields if isinstance(arr, Agg) else None)
+        if items is None:
+            return None
+        parts = [bytes_of(eng, st, x) for x in items]
+        return [(st, zs(z3.Concat(*parts) if len(parts) > 1 else (parts[0] if parts else z3.Empty(SEQ))))]
+
+    def index_full(eng, st, call):
+        return [(st, call.args[0])]
+
+    return [(R(r'Vec::<u8>::new$'), vec_new), (R(r'Vec::<u8>::extend_from_slice$'), extend), (R(r'Vec::<u8>::push$'), push), (R(r'str>::as_bytes$|String::as_bytes$'), as_bytes),
+            (R(r'slice::<impl \[.*\]>::concat::<'), concat), (R(r' as (std::ops::)?Index<(std::ops::)?RangeFull>>::index$'), index_full)]
 
 
 def no_nul(s, maxlen):
